@@ -38,6 +38,29 @@ def _run(ctx):
         res = lib.vh(ctx, "trustanchor", beh, out_name="trustanchor%d" % i, opts=opts, cacheable=True, timeout=3000)
         results.append(res["per_property"]["C10"])
     r = lib.merge_results(*results)
+    # which TALs there are (TalSet.tla, not a listed property): TLC, then every row against Engine::new and a run
+    lib.tlc(ctx, "mc_talset", "MC_TalSet.tla", "MC_TalSet.cfg", workers=2, timeout=600)
+    for name, inv in (("bad_skip_broken", "FailsInsteadOfShrinking"), ("bad_unknown_ignored", "FailsInsteadOfShrinking"),
+                      ("observation", "NoNameTwice")):
+        bad = lib.tlc(ctx, "mc_talset_" + name, "MC_TalSet.tla", "MC_TalSet_%s.cfg" % name, workers=2, timeout=600,
+                      expect_ok=False, count=False)
+        with open(bad["out"], errors="replace") as f:
+            if ("Invariant %s is violated" % inv) not in f.read():
+                raise lib.ToolError("MC_TalSet_%s.cfg is not rejected by %s" % (name, inv))
+    gen = lib.tlc(ctx, "gen_talset", "MC_TalSet.tla", "Gen_TalSet.cfg", workers=1, timeout=600, count=False)
+    rows = ctx.path("talset.ndjson")
+    if lib.extract_replays(gen["out"], rows) == 0:
+        raise lib.ToolError("no rows exported by Gen_TalSet.cfg")
+    ts = lib.vh(ctx, "talset", rows, out_name="talset", cacheable=True, timeout=600)["per_property"]["C10"]
+    if ts.get("notes", {}).get("talset_rows_differing_from_TalSet", 0):
+        lib.log("  note: %d TAL set rows differ from TalSet.tla (recorded in the evidence, no verdict)"
+                % ts["notes"]["talset_rows_differing_from_TalSet"])
+    r = lib.merge_results(r, ts)
+    ctx.assumptions += [
+        "TalSet.tla (which TALs an instance works with: --tal names, no-rir-tals, the extra TAL directory; start-up failure "
+        "instead of a smaller set) is checked by TLC and replayed row by row; it is no listed property: differences are "
+        "model divergences",
+    ]
     ctx.extra["histories_exported"] = total
     ctx.assumptions += [
         "certificates are abstract kinds in the model (good / wrong key / expired / garbage); the factory binds each to one "
